@@ -71,10 +71,17 @@ func txnConc(args []string) error {
 		evs := make([][]hEvt, ng)
 		var wg sync.WaitGroup
 		var stuck int32
+		var died atomic.Value
 		for g := 0; g < ng; g++ {
 			wg.Add(1)
 			go func(g int) {
 				defer wg.Done()
+				defer func() { // a panic inside Commit / Abort: the window ends, the final event reports it
+					if x := recover(); x != nil {
+						died.Store(fmt.Sprint(x))
+						atomic.StoreInt32(&stuck, 1)
+					}
+				}()
 				rng := rand.New(rand.NewSource(envSeed()*1009 + int64(w*64+g)))
 				myKeys := []int{} // keys inserted and committed by this goroutine, not deleted yet
 				add := func(ev map[string]interface{}) {
@@ -172,7 +179,11 @@ func txnConc(args []string) error {
 			tw.Emit(h.ev)
 		}
 		if stuck != 0 {
-			tw.Emit(map[string]interface{}{"ev": "Final", "res": "stuck", "rows": [][]int{}})
+			res := "stuck"
+			if d, ok := died.Load().(string); ok {
+				res = "panic:" + d
+			}
+			tw.Emit(map[string]interface{}{"ev": "Final", "res": res, "rows": [][]int{}})
 			tw.Close()
 			os.Exit(3)
 		}
